@@ -419,6 +419,45 @@ def mapped_deep_interrupt(ctx, i):
     ctx.case({"mapped_int": depth, "via": via_node}, True)
 
 
+def cached_interrupt_history(ctx, i):
+    """An interrupt declared cache=True on a runner with a cache backend: (1) a fresh run pauses, (2) the run with the
+    answer under the reported key completes as if the handler had answered, (3) a NEW run with the same inputs and no
+    answer pauses again at the same interrupt - the human's answer of an earlier conversation is not a handler result."""
+    import asyncio
+
+    from hypergraph import AsyncRunner, FunctionNode, Graph, InMemoryCache, InterruptNode
+
+    rng = ctx.rng
+
+    def draft(q):
+        return ("draft", q)
+
+    def ask(d):
+        return None
+
+    def fin(decision):
+        return ("fin", decision)
+
+    nodes = [FunctionNode(draft, name="draft", output_name="d", cache=rng.random() < 0.5), InterruptNode(ask, name="ask", output_name="decision", cache=True), FunctionNode(fin, name="fin", output_name="out")]
+    rng.shuffle(nodes)
+    g = Graph(nodes, name="ci")
+    runner = AsyncRunner(cache=InMemoryCache())
+    answer = rng.choice(["yes", "", 0, None if False else "no", ["x"]])
+    case = {"program": "cached interrupt: pause, answer, fresh run", "answer": repr(answer)}
+    for rep in range(2):
+        r1 = asyncio.run(runner.run(g, {"q": "run:q"}))
+        ctx.obs["cached_interrupt_conversations"] += 1
+        if r1.status.value != "paused" or r1.pause is None or r1.pause.node_name != "ask":
+            ctx.violation("C14:cached-interrupt-not-paused", f"conversation {rep}: a fresh run (same inputs, no answer) on a cache that saw an earlier answered conversation: status {r1.status.value}, values {core.short(r1.values)} - expected PAUSED at ask", {**case, "conversation": rep})
+            return
+        ctx.obs["pauses_checked"] += 1
+        r2 = asyncio.run(runner.run(g, {"q": "run:q", r1.pause.response_key: answer}))
+        if r2.status.value != "completed" or r2.values.get("out") != ("fin", answer):
+            ctx.violation("C14:resume-differs-from-auto", f"conversation {rep}: answering under {r1.pause.response_key!r}: status {r2.status.value} values {core.short(r2.values)}", {**case, "conversation": rep})
+            return
+    ctx.case({"cached-interrupt-history": True}, True)
+
+
 def run(ctx):
     n = 800 if ctx.tier == "quick" else 16000
     core.WARM_P = 0.0
@@ -429,6 +468,8 @@ def run(ctx):
         r = i % 6
         if i % 40 == 7:
             mapped_deep_interrupt(ctx, i)
+        elif i % 40 == 27:
+            cached_interrupt_history(ctx, i)
         elif r == 4:
             nested_identity(ctx, i)
         elif r == 5:
